@@ -195,15 +195,14 @@ def decodedTriples (st : Decode.Stream) : List (Watermark × Int) :=
   st.ops.map fun so =>
     (⟨so.kernelWait, so.dmaWait⟩, match so.op with | .block b => (b.blockdep : Int) | .dma _ => -1)
 
-def shramOf (a : Gen.AccRow) : Conflicts.Shram :=
-  { usableBytes := a.shramTotalBanks * a.shramBankSize, lutBase := a.shramLutAddress, lutBytes := a.shramLutSize }
+def shramOf (a : Gen.AccRow) : Conflicts.Shram := Conflicts.hwShram a.name
 
 def specStr (a : Gen.AccRow) (st : Decode.Stream) (exploreUpTo : Nat) : String :=
   let v := Conflicts.checkStream (Conflicts.hwCaps a.isU65) (shramOf a) st.ops exploreUpTo
   let first := match v.first with
     | some (o, y) => s!"{o}:{y}:{v.why.replace " " "_"}"
     | none => "-"
-  let bj := BlockJobs.checkStream a.isU65 st.ops
+  let bj := BlockJobs.checkStream (shramOf a) st.ops
   let bjs := match bj with
     | [] => "-"
     | _ => "~".intercalate ((bj.take 8).map fun (m : String) => m.replace " " "_")
